@@ -26,6 +26,7 @@ import (
 	"github.com/yandex/pandora/core/engine"
 	"github.com/yandex/pandora/core/register"
 	"go.uber.org/zap"
+	"go.uber.org/zap/zapcore"
 	"golang.org/x/net/http2"
 
 	"verifsim/simfs"
@@ -48,7 +49,7 @@ type recSample struct {
 }
 
 type recAggr struct {
-	mu      sync.Mutex // nosim
+	mu      simrt.HMutex
 	t0      time.Time
 	samples []recSample
 }
@@ -120,7 +121,7 @@ type respScript struct {
 }
 
 type httpTarget struct {
-	mu       sync.Mutex // nosim
+	mu       simrt.HMutex
 	t0       time.Time
 	seen     []seenReq
 	Script   func(n int, r *seenReq) respScript
@@ -263,7 +264,7 @@ func startHTTPTargetTLS(n *simnet.Net, addr string, useTLS bool, opts tlsOpts, s
 			cfg.NextProtos = []string{"h2", "http/1.1"}
 		}
 		if opts.FailHandshake != nil {
-			var hmu sync.Mutex // nosim
+			var hmu simrt.HMutex
 			hn := 0
 			base := cfg
 			cfg = base.Clone()
@@ -297,7 +298,7 @@ type rawAction struct {
 }
 
 type rawPeer struct {
-	mu     sync.Mutex // nosim
+	mu     simrt.HMutex
 	t0     time.Time
 	seen   []seenReq
 	Script func(n int, r *seenReq) rawAction
@@ -403,6 +404,7 @@ type httpPoolSpec struct {
 	Files     map[string][]byte
 	Horizon   time.Duration
 	Stalls    bool
+	DebugLog  bool // the engine's (and so every gun's) logger has the debug level enabled, as with `log: {level: debug}`
 }
 
 type httpPoolResult struct {
@@ -465,7 +467,11 @@ func runHTTPPool(r *R, sp httpPoolSpec, netSetup func(n *simnet.Net), prepare fu
 			res.DecodeErr = err
 			return
 		}
-		eng := engine.New(zap.NewNop(), newMetrics(), engine.Config{Pools: conf.Pools})
+		logger := zap.NewNop()
+		if sp.DebugLog {
+			logger = zap.New(zapcore.NewCore(zapcore.NewJSONEncoder(zap.NewProductionEncoderConfig()), zapcore.AddSync(discardWriter{}), zapcore.DebugLevel))
+		}
+		eng := engine.New(logger, newMetrics(), engine.Config{Pools: conf.Pools})
 		ctx, cancel := context.WithCancel(context.Background())
 		defer cancel()
 		if sp.CancelAt > 0 {
